@@ -1,4 +1,4 @@
 SPECIFICATION Spec
 ACTION_CONSTRAINT EmitEdge
-INVARIANT Inv Monotone SignalsAgree StructInv CrossInv EmptyIsUnset
+INVARIANT Inv Monotone SignalsAgree StructInv CrossInv EmptyIsUnset HugeInv PathInv
 CHECK_DEADLOCK FALSE
